@@ -416,6 +416,16 @@ func (fr *Frame) onAcquire(id Term, write bool, pos token.Pos) {
 	if field != "" {
 		fr.anchorAsserts("lock", field, pos, nil)
 	}
+	// Re-acquiring a lock is an interference point: whatever this goroutine saw of the fields the
+	// mutex guards in an earlier critical section may have been changed by others since; only the
+	// rely conditions of the type and the monitor invariant are known about the new values.
+	// A function contract may opt out with `stablebetweensections` (an assumption that is listed
+	// in the evidence).
+	if fc := fr.vc.eng.contractOf(fr.fn); fc != nil && fc.StableBetweenSections {
+		fr.vc.globalsUsed = append(fr.vc.globalsUsed, "no interference assumed between the critical sections of "+relFuncName(fr.fn)+" (contract says `stablebetweensections`)")
+	} else {
+		fr.havocGuardedBy(obj, n, field, id)
+	}
 	for _, li := range fr.lockInvs(n, field) {
 		t, err := fr.evalSpecAssume(li.Clause.Expr, fr.lockInvEnv(obj, n))
 		if err != nil {
@@ -423,6 +433,59 @@ func (fr *Frame) onAcquire(id Term, write bool, pos token.Pos) {
 			continue
 		}
 		fr.vc.assume(fr.reach, t)
+	}
+}
+
+// havocGuardedBy forgets the fields of obj that are declared guarded by its mutex `field`.
+func (fr *Frame) havocGuardedBy(obj *Val, n *types.Named, field string, id Term) {
+	if obj == nil || n == nil || n.Obj().Pkg() == nil || field == "" {
+		return
+	}
+	pc := fr.vc.eng.contracts[n.Obj().Pkg().Path()]
+	if pc == nil {
+		return
+	}
+	st, ok := n.Underlying().(*types.Struct)
+	if !ok {
+		return
+	}
+	vc := fr.vc
+	U := fr.U()
+	before := fr.st.clone()
+	touched := false
+	// only a RE-acquisition within this activation: before its first acquisition the function has
+	// not seen the guarded fields (guarded-by), and what its caller knew was already forgotten at
+	// the call boundary
+	again := vc.define("reacq", SBool, and(fr.reach, eq(sel(vc.heap(fr.st, lockRel, lockSort), id), "1")))
+	for _, g := range pc.Guarded {
+		if g.Type != n.Obj().Name() || g.Mutex != field {
+			continue
+		}
+		for _, fname := range g.Fields {
+			for i := 0; i < st.NumFields(); i++ {
+				if st.Field(i).Name() != fname || isStruct(st.Field(i).Type()) {
+					continue
+				}
+				hn := fieldHeapName(n, i)
+				hs := arrSort(SInt, U.sortOf(st.Field(i).Type()))
+				h := vc.heap(fr.st, hn, hs)
+				fr.markDirty(hn, "")
+				nv := fr.freshVal("acq."+fname, st.Field(i).Type())
+				vc.setHeap(fr.st, hn, hs, ite(again, store(h, obj.T, nv.T), h))
+				touched = true
+			}
+		}
+	}
+	if !touched {
+		return
+	}
+	for _, c := range pc.Relies[n.Obj().Name()] {
+		k := 7900 + len(vc.cmds)
+		env := &SpecEnv{fr: fr, vars: map[string]*Val{"self": obj}, cur: fr.st, old: before, pkg: fr.vc.eng.spkgs[n.Obj().Pkg().Path()], nq: &k}
+		t, err := fr.evalSpecAssume(c.Expr, env)
+		if err == nil {
+			vc.assume(again, t)
+		}
 	}
 }
 
